@@ -116,9 +116,16 @@ def run_case(case, ctx):
     # not for integer-valued classes): an SVD has no unit
     unit = 1.0
     if method != "symeig_svd" and cls not in ("integer",) and np.dtype(dt).kind == "f" and rs.rand() < 0.2:
-        unit = float(gen.choice(rs, [1e-18, 1e12] if np.dtype(dt) == np.float64 else [1e-9, 1e6]))
+        unit = float(gen.choice(rs, ([1e-18, 1e12] + ([1e160, 1e-160] if method in ("truncated_svd", "direct_truncated") else [])) if np.dtype(dt) == np.float64 else [1e-9, 1e6]))
         M = (M * np.asarray(unit, dtype=M.dtype)).astype(M.dtype)
         ctx.count("matrices_in_extreme_units")
+    if method == "direct_truncated" and unit == 1.0 and rs.rand() < 0.3:   # (svd_interface itself rejects integer dtypes: finfo)
+        # data stored in a narrow integer dtype (pixel values, counts): squares must not be formed in that dtype
+        idt = gen.choice(rs, ["uint8", "int8", "int16"])
+        hi = {"uint8": 256, "int8": 128, "int16": 3000}[idt]
+        M = rs.randint(0 if idt == "uint8" else -hi + 1, hi, size=(d1, d2)).astype(idt)
+        cls = cls + "+" + idt
+        ctx.count("narrow_integer_matrices")
     mx, mn = max(d1, d2), min(d1, d2)
     n_req = gen.choice(rs, [None] + list(range(1, mx + 3)))
     flip = bool(rs.rand() < 0.8)
@@ -143,6 +150,24 @@ def run_case(case, ctx):
         k = n_eigenvecs if n_eigenvecs is not None else max(matrix.shape)
         return U[:, :k], S[:k], V[:k, :]
 
+    def eigh_svd(matrix, n_eigenvecs=None, **kw):
+        """a user-supplied SVD for symmetric positive semi-definite input: eigendecomposition, V returned as a *view* of U"""
+        wv, Q = np.linalg.eigh(matrix)
+        order_ = np.argsort(-wv)
+        Q, wv = np.ascontiguousarray(Q[:, order_]), np.clip(wv[order_], 0, None)
+        k = n_eigenvecs if n_eigenvecs is not None else matrix.shape[0]
+        Qk = np.ascontiguousarray(Q[:, :k])
+        return Qk, wv[:k], Qk.T
+
+    use_eigh = False
+    if method == "callable" and d1 == d2 and np.dtype(dt) == np.float64 and nonneg is None and rs.rand() < 0.5:
+        G_ = ref.hp(M) @ ref.hp(M).T
+        M = np.asarray(G_ / (np.max(np.abs(G_)) or 1.0), dtype=dt)
+        use_eigh = True
+        desc["callable"] = "eigh-with-V-a-view-of-U"
+        sig = np.linalg.svd(ref.hp(M), compute_uv=False)
+        smax = float(sig[0]) if sig.size else 0.0
+        numrank = int(np.sum(sig > 1e3 * eps * max(smax, 1e-300))) if smax > 0 else 0
     kw = {}
     n_over = 5
     if method == "randomized_svd":
@@ -155,7 +180,7 @@ def run_case(case, ctx):
             n_over = 10
             kw["n_oversamples"] = n_over
         desc["randomized_kwargs"] = {k: v for k, v in kw.items() if k != "random_state"}
-    meth_arg = np_svd if method == "callable" else method
+    meth_arg = (eigh_svd if use_eigh else np_svd) if method == "callable" else method
     sym = method == "symeig_svd"
     rnd = method == "randomized_svd"
     mcls = "%s" % method
